@@ -310,3 +310,11 @@ def run(cx, out):
         check_box(out, facts)
         check_default_decode_into(out, facts)
         check_bulk_vec(out, facts)
+    # derived in-place decoders: the corpus of C05 (R05.5 / R10.5)
+    from . import c05
+    from ..report import Out
+    sub = Out('C05')
+    c05.run(cx, sub)
+    out.rule('R10.5', 'derived decode_into: no exit after a successful in-place field decode without dropping it (derive corpus of C05)')
+    out.rule('R05.5', 'derived decode_into exists only for attribute-free repr(transparent) structs and decodes the fields in order')
+    out.absorb(sub, {'R10.5', 'R05.5'})
